@@ -16,7 +16,7 @@ import (
 func init() {
 	core.Register(&core.Prop{
 		ID: "C02",
-		Rule: "grid phase: case = one polygonal geometry (1-2 polygons x 1-3 rings of 0-7 unfiltered vertices on the half-integer grid {0,.5,..,4}^2: self-intersecting, collinear, repeated-vertex, clockwise, unclosed and closed rings all occur; also *Bounds) and all 81 grid points judged by an exact integer/rational crossing-number + on-segment oracle, plus MultiPoint/LineString/MultiLineString/Polygon receivers (random vertices, and each member polygon of the polygonal itself, same or copied storage); " +
+		Rule: "grid phase: case = one polygonal geometry (1-2 polygons x 1-3 rings of 0-7 unfiltered vertices on the half-integer grid {0,.5,..,4}^2: self-intersecting, collinear, repeated-vertex, clockwise, unclosed and closed rings all occur; also *Bounds; 30% of the polygonals are handed over with their rings laid out as consecutive sub-slices of one backing array while the oracle reads a separately allocated copy) and all 81 grid points judged by an exact integer/rational crossing-number + on-segment oracle, plus MultiPoint/LineString/MultiLineString/Polygon receivers (random vertices, and each member polygon of the polygonal itself, same or copied storage); " +
 			"float phase: star and random-walk float polygons with margin points judged by the same rule in exact rational arithmetic; enumerate phase (thorough): every ordered triangle and quadrilateral on the 4x4 integer grid, closed and unclosed, against all 49 half-grid points; " +
 			"an evaluation is one (point, geometry) classification; non-trivial = geometry for which at least one OnEdge and one Inside answer were produced; distinct by content hash",
 		Assumptions: []string{"a ring counts when it stores >= 3 vertices (closing vertex included), as the implementation documents; closed rings with exactly 3 stored vertices are not generated", "float phase judges only points with margin >= 1e-9*diameter from every edge"},
@@ -43,7 +43,7 @@ func init() {
 		Run: run,
 		Floors: func(t string) map[string]int64 {
 			return map[string]int64{"pt.on_vertex": 1000, "pt.on_closing_segment_of_unclosed_ring": 200, "pt.on_horizontal_edge": 500, "pt.ray_through_vertex": 1000,
-				"pt.inside_two_members": 100, "answer.inside": 1000, "answer.outside": 1000, "answer.onedge": 1000, "recv.outside": 200, "recv.not_outside": 200, "recv.self.outside": 100, "recv.self.not_outside": 100, "float.judged": 1000, "float.ray_grazes_one_ulp_edge": 1000, "float.extreme_scale": 300, "arg.*Bounds": 100}
+				"pt.inside_two_members": 100, "answer.inside": 1000, "answer.outside": 1000, "answer.onedge": 1000, "recv.outside": 200, "recv.not_outside": 200, "recv.self.outside": 100, "storage.rings_share_one_backing_array": 1000, "recv.self.not_outside": 100, "float.judged": 1000, "float.ray_grazes_one_ulp_edge": 1000, "float.extreme_scale": 300, "arg.*Bounds": 100}
 		},
 		Exhaustive: func(t string) bool { return false },
 	})
@@ -225,6 +225,15 @@ func runGrid(c *core.Ctx) {
 		c.Count("arg.MultiPolygon")
 	}
 	detail := map[string]interface{}{"polygonal": gen.Dump(pgl)}
+	if _, isBox := pgl.(*geom.Bounds); !isBox && r.Chance(0.3) {
+		// the library gets a copy whose rings are consecutive slices of one backing array
+		// (rings cut out of a flat coordinate buffer); the oracle keeps the separately allocated
+		// original, so anything written through a ring's spare capacity shows as a wrong answer
+		pgl = gen.InArena(pgl.(geom.Geom)).G.(geom.Polygonal)
+		detail["storage"] = "rings are consecutive sub-slices of one backing array (ring k = buf[off:off+n])"
+		c.Count("storage.rings_share_one_backing_array")
+		tag += "-shared-storage"
+	}
 	coverage(c, polys)
 	nIn, nEdge := judgeAll(c, pgl, polys, allGrid, detail, tag)
 	if nIn > 0 && nEdge > 0 {
